@@ -45,24 +45,65 @@ def translate(ctx):
 
 
 # ------------------------------------------------------------------ generators
+SHARED_TEXTS = ["pT [GeV]", "error", "x", "", " ", "pT, [GeV]", 'the "x" axis', "two\nlines", "dN/d\u03b7", "a;b|c~d^e=f",
+                ",", '"', "'", "cr\r\nlf", " padded ", "=1+1", "0.5", "bin_low"]
+
+
+def label_dict(rng, k, style=None):
+    """one label dictionary (column name -> header text).  The documentation puts no restriction on the texts, so:
+    distinct texts; the SAME text on several columns (bin_low/bin_high both 'pT [GeV]', stat and sys error both
+    'error', all columns alike); empty strings; texts holding the delimiter, quotes, line breaks, blanks, non-ASCII
+    characters, or the name of another column.  (Not generated: a text starting with '#', which a reader of the file
+    takes for a comment line.)"""
+    style = style or rng.choice(["distinct", "distinct", "distinct", "shared", "shared", "pairs", "alike", "empty", "special"])
+    d = {c: f"h{k}:{c}" for c in ALL_COLS}
+    if style == "shared":
+        for _ in range(rng.randint(1, 2)):
+            txt = rng.choice(SHARED_TEXTS)
+            for c in rng.sample(ALL_COLS, rng.randint(2, 5)):
+                d[c] = txt
+    elif style == "pairs":      # what a user writes: one text per kind of quantity
+        d.update({"bin_low": "pT [GeV]", "bin_high": "pT [GeV]", "bin_center": rng.choice(["pT [GeV]", "pT"]),
+                  "stat_err+": "error", "stat_err-": "error", "sys_err+": rng.choice(["error", "sys"]),
+                  "sys_err-": rng.choice(["error", "sys"])})
+    elif style == "alike":
+        txt = rng.choice(SHARED_TEXTS)
+        d = {c: txt for c in ALL_COLS}
+    elif style == "empty":
+        for c in rng.sample(ALL_COLS, rng.randint(1, 8)):
+            d[c] = ""
+    elif style == "special":
+        for c in rng.sample(ALL_COLS, rng.randint(1, 8)):
+            d[c] = rng.choice(SHARED_TEXTS) + rng.choice(["", "", f" {c}", str(k)])
+    return d
+
+
+def label_dicts(rng, n):
+    """n dictionaries; the unusual texts in all of them, or only in a later one"""
+    q = rng.random()
+    if q < 0.45:
+        return [label_dict(rng, k, "distinct") for k in range(n)]
+    if q < 0.7 or n < 2:
+        return [label_dict(rng, k) for k in range(n)]
+    late = rng.randrange(1, n)
+    return [label_dict(rng, k, "distinct" if k != late else rng.choice(["shared", "pairs", "alike", "empty", "special"]))
+            for k in range(n)]
+
+
 def mk_labels(rng, nh, cols_needed, mode=None):
     """-> (labels, admissible)"""
-    keys = list(ALL_COLS)
     mode = mode or rng.choice(["one", "per", "per", "more", "few", "missing", "empty", "one"])
-
-    def d(k):
-        return {c: f"h{k}:{c}" for c in keys}
     if mode == "one":
-        return [d(0)], True
+        return label_dicts(rng, 1), True
     if mode == "per":
-        return [d(k) for k in range(nh)], True
+        return label_dicts(rng, nh), True
     if mode == "more":
-        return [d(k) for k in range(nh + rng.randint(1, 2))], True
+        return label_dicts(rng, nh + rng.randint(1, 2)), True
     if mode == "few":
         n = max(nh - 1, 0)
-        return [d(k) for k in range(n)], (n == 1)       # exactly one dictionary is fine, 0 or 1<n<nh is not
+        return label_dicts(rng, n), (n == 1)       # exactly one dictionary is fine, 0 or 1<n<nh is not
     if mode == "missing":
-        ls = [d(k) for k in range(nh)]
+        ls = label_dicts(rng, nh)
         victim = rng.randrange(nh)
         col = rng.choice(cols_needed) if cols_needed else "bin_low"
         del ls[victim][col]
@@ -223,7 +264,7 @@ def gen_output(rng, ref, wr_only=False):
         cols = None if q < 0.4 else (rng.sample(ALL_COLS, rng.randint(1, 8)) if q < 0.9 else
                                      [rng.choice(ALL_COLS) for _ in range(rng.randint(1, 4))])
         n = 1 if rng.random() < 0.5 else ref.nh + (rng.randint(0, 1) if rng.random() < 0.2 else 0)
-        return ("wr", cols, [{c: f"h{k}:{c}" for c in ALL_COLS} for k in range(n)], "")
+        return ("wr", cols, label_dicts(rng, n), "")
     return ("g", rng.choice("cccwwlrbhken"))
 
 
